@@ -20,6 +20,8 @@ SHAPES = {
     "unicode": lambda n: ("/**\n * ünï — ✓\n */\n", "{ \"k-é\": string, };"),
     "union": lambda n: ("", "{ \"t\": \"A\" } | { \"t\": \"B\", v: number };"),
     "doc_mentions_decl": lambda n: ("/**\n * see export type Other = number;\n */\n", "number;"),
+    # the documentation of the TYPE (in front of its own `export type`) quotes the declaration of ANOTHER type of the same file
+    "doc_mentions_member": lambda n: ("/**\n * compare with `export type @OTHER@ = ...` below\n */\n", "{ m: number, };"),
 }
 # outside the proven domain (WFBlock): listed defect classes
 BAD_SHAPES = {
@@ -44,6 +46,7 @@ def make_sets(ctx, bad=False):
                 if bad and i == rep % len(names):
                     sh = list(BAD_SHAPES)[rep % len(BAD_SHAPES)]
                 docs, body = (BAD_SHAPES.get(sh) or SHAPES[sh])(n)
+                docs = docs.replace("@OTHER@", names[(i + 1) % len(names)])
                 imports = IMPORTSETS[(i + rep + len(n)) % len(IMPORTSETS)]
                 gens.append({"name": n, "shape": sh, "text": gen_text(n, imports, docs, body)})
             sets.append(gens)
